@@ -499,6 +499,43 @@ func saturatedScratch(rec *hx.Recorder) {
 	rec.NonTrivialEnum(n)
 }
 
+// readerErrors: a reader that fails - at every offset of the header and at a
+// few later ones, persistently and once - with each of the error values real
+// readers fail with, an error of an uncomparable dynamic type among them:
+// every entry point returns normally.
+func readerErrors(rec *hx.Recorder) {
+	valid := (&fitmodel.Stream{HeaderSize: 14, Proto: 0x20, Recs: []fitmodel.Rec{
+		{IsDef: true, Global: 0, Fields: []fitmodel.FieldDef{{Num: 0, Size: 1, Base: 0}}}, {Raw: []byte{4}},
+		{IsDef: true, Local: 1, Global: 20, Fields: []fitmodel.FieldDef{{Num: 253, Size: 4, Base: 0x86}, {Num: 3, Size: 1, Base: 2}}},
+		{Local: 1, Raw: []byte{0, 0xCA, 0x9A, 0x3B, 99}},
+	}}).Bytes()
+	chain := append(append([]byte{}, valid...), valid...)
+	n := int64(0)
+	offsets := []int{}
+	for k := 0; k <= 16; k++ {
+		offsets = append(offsets, k)
+	}
+	offsets = append(offsets, 20, 25, len(valid)-2, len(valid)-1, len(valid), len(valid)+1, len(valid)+14, len(chain)-1)
+	for _, kind := range append([]string{""}, gen.FaultErrKinds...) {
+		for _, k := range offsets {
+			for mode := 0; mode < 3; mode++ {
+				ch := gen.NoFault("whole", 0)
+				ch.FaultAt, ch.FaultErr = k, kind
+				ch.Transient = mode == 1
+				ch.FaultWithData = mode == 2
+				n++
+				if msg, _ := guarded(0, "reader-errors", chain, ch, allEntries); msg != "" {
+					rec.Fail("reader-errors", "", fmt.Sprintf("%s\nreader failing at offset %d with error kind %q (transient=%v, with data=%v)", msg, k, kind, ch.Transient, ch.FaultWithData),
+						byteCase{Data: hex.EncodeToString(chain), Chunk: ch})
+					return
+				}
+			}
+		}
+	}
+	rec.Eval("reader-errors", n)
+	rec.NonTrivialEnum(n)
+}
+
 // optionLists: every list of one to three options drawn from {a logger, a nil
 // logger, the standard-error logger, unknown fields, unknown messages} - the
 // same option may occur twice, in any order - on a valid, a cut and a refused
@@ -768,6 +805,7 @@ func TestC01(t *testing.T) {
 			saturatedScratch(rec)
 			stdLogger(rec)
 			optionLists(rec)
+			readerErrors(rec)
 		}
 
 		corpus := gen.SmallCorpus(20000)
